@@ -61,6 +61,11 @@ pub struct C20Case {
     pub cars: Vec<crate::gen::train::CarSpec>,
     #[serde(default)]
     pub train_mass: Option<f64>,
+    /// fuel converter only: the file also carries a starting transient limit
+    /// (`pwr_out_max_init`) of this fraction of the rating (0 = the default, none); the mass
+    /// relation must not depend on it
+    #[serde(default)]
+    pub fc_init_frac: f64,
 }
 
 fn side(k: u8) -> MassSideEffect {
@@ -162,6 +167,10 @@ fn run_component<C: Comp>(case: &C20Case, cx: &mut Ctx, name: &str) {
     v["mass"] = json!(m0);
     v[C::SPECIFIC_KEY] = json!(s0);
     v[C::RATING_KEY] = json!(rating0);
+    if name == "fc" && case.fc_init_frac > 0.0 {
+        v["pwr_out_max_init"] = json!(rating0 * case.fc_init_frac);
+        cx.label("fuel_converter_file_carries_a_starting_transient_limit");
+    }
     let init_raw = CompRaw { mass: m0, specific: s0, rating: rating0 };
     let loaded = C::from_v(v);
     // load with redundant mass data: accepted iff consistent (fuel converter does not check
@@ -639,6 +648,7 @@ fn run_loco(case: &C20Case, cx: &mut Ctx) {
                 init_time: 0.0,
                 hybrids: 0,
                 late_battery: false,
+                consist_limits_off: false,
             };
             let link = LinkSpec { length: 30000.0, elevs: vec![(0.0, 0.0), (30000.0, 0.0)], headings: vec![], cats: vec![], single: true, sets: vec![SetSpec { train_type: 1, head_end: false, params: vec![], limits: vec![(0.0, 30000.0, 20.0)] }], coords: 0 };
             let net = build_chain(&[link]);
@@ -792,7 +802,8 @@ impl C20 {
         } else {
             (vec![], None)
         };
-        C20Case { target, comp_init: (m0, s0, rating0), loco_init, ops, others, cars, train_mass }
+        let fc_init_frac = if target == 0 && g.bool(0.35) { g.grid(0.05, 0.6, 11) } else { 0.0 };
+        C20Case { target, comp_init: (m0, s0, rating0), loco_init, ops, others, cars, train_mass, fc_init_frac }
     }
     fn check(case: &C20Case, cx: &mut Ctx) {
         match case.target {
